@@ -31,11 +31,12 @@ pub enum Score {
 
 /// Bijective mixing of a 2p-bit value: a true permutation of 0..4^p without a table.
 pub fn bij(x: u64, bits: u32, seed: u64) -> u64 {
+    let bits = bits.min(64);
     let mask = if bits >= 64 { u64::MAX } else { (1u64 << bits) - 1 };
     let a = (seed | 1) & mask;
     let b = (seed >> 17) & mask;
     let mut y = (x.wrapping_mul(a).wrapping_add(b)) & mask;
-    let sh = (bits / 2).max(1);
+    let sh = (bits / 2).clamp(1, 31);
     y ^= y >> sh;
     y = (y.wrapping_mul(((seed >> 7) | 1) & mask)) & mask;
     y ^= y >> sh;
@@ -295,9 +296,6 @@ fn check<P: Kmer>(c: &Case) -> CheckResult {
 
 fn build<P: Kmer + 'static>(name: &'static str, _env: &Env) -> Vec<Box<dyn Job>> {
     let p = P::k();
-    if p > 32 {
-        return Vec::new();
-    }
     vec![PropJob::new(
         format!("scan/{}", name),
         1200,
@@ -313,6 +311,6 @@ fn build<P: Kmer + 'static>(name: &'static str, _env: &Env) -> Vec<Box<dyn Job>>
 pub fn jobs(env: &Env) -> Vec<Box<dyn Job>> {
     let mut out: Vec<Box<dyn Job>> = Vec::new();
     crate::kmers_list!(build, out, env; Kmer2, Kmer3, Kmer4, Kmer4v, Kmer5, Kmer6, Kmer8, Kmer10, Kmer12,
-        Kmer14, Kmer15, Kmer16, Kmer20, Kmer24, Kmer30, Kmer31, Kmer32);
+        Kmer14, Kmer15, Kmer16, Kmer20, Kmer24, Kmer30, Kmer31, Kmer32, Kmer40, Kmer48, Kmer64);
     out
 }
